@@ -396,10 +396,21 @@ EXTRA = {
            "C04_known_finding_layer_7_witness (the two frame views), C04_scanner_terminates_on_every_input / C04_scanner_packet_bound (ARBITRARY bytes, every configuration: the reader loop "
            "ends within length/64 + 2 rounds and hands on at most length/64 packets); the panic prediction of the extracted run and view models is compared with the binary on every unfiltered "
            "run; a fixed corpus of the crash inputs of every recorded or repaired finding and of inputs longer than the reader's look-ahead runs first.",
+    "C16": "ALSO (session 3): the modes that print no report (three views, filtered writing) are modelled as a whole run (Model/SystemView.v run_reportless): "
+           "C16_reportless_exit (exit status N exactly when an error was counted or a fatal error is held at the end, 0 exactly when neither), "
+           "C16_reportless_exit_without_option, C16_reportless_abort_only_for_layer_7; the extracted function predicts the exit status of every run of the "
+           "report-less group of the contract stream and is compared with the binary; independently the exit status is judged against the statistics the run writes.",
     "C13": "ALSO: since defect F17 was repaired C13_frame_verdict and C13_lane_count_rule carry no hypothesis on the lane numbers of the fatal list; "
            "C13_fatal_lanes_form_a_set (over ANY sequence of frames the list holds exactly the lanes that announced, each once -- lane A, lane B, lane A again included; "
            "instantiated with the fact re-read from add_fatal_lanes, which now demands a guarded push or sort + dedup).",
+    "C19": "ALSO: C19_rdh_lane_faults (the `lane faults` column of an RDH row shows the most severe of the detector field's status bits 3 fatal / 2 error / 1 warning / "
+           "0 lane missing data, for EVERY detector-field value; masks regenerated from the view code).",
+    "C12": "ALSO: the bad-identifier packets of the link stream carry a header-size byte different from 0x40 in a third of the cases (the word offsets must still start 64 bytes behind the RDH).",
+    "C18": "ALSO: the cut-input stream through the binary also runs the two readout-frame views (judged on: ends normally, no panic).",
 }
+EXTRA["C13"] += (" The binary run of every stave stream is repeated with -m: error total, frame-level codes, staves with errors and the exit status under -E 9 must not change.")
+EXTRA["C16"] += (" A statistics file recorded from the run and edited in its error section only (total_errors / unique_error_codes) must be answered with the configured exit status, with and without -m.")
+EXTRA["C04"] += (" The corpus also holds a stave whose lanes carry a configured chip order plus / minus one chip, checked with chip orders configured without a chip count.")
 for _k, _v in EXTRA.items():
     CLAIMED[_k]["text"] = CLAIMED[_k]["text"] + " " + _v
 
